@@ -10,18 +10,18 @@ import json, os, random, threading
 import vlib, engine_lib as el, app_lib as al
 
 INV = {
-    "C12": ["C12_Loaders", "C12_Runners", "C12_Procs"],
+    "C12": ["C12_Loaders", "C12_Runners", "C12_Procs", "C12_Early"],
     "C13": ["C13_Once", "C13_All", "C13_AfterReady", "C13_StopAtError", "C13_ErrorReported", "C09_NoRunnerAfterFailure", "C05_InitOnce"],
     "C14": ["C14_WaitsAll", "C14_Isolation"],
 }
 PROPS = {"C12": [], "C13": [], "C14": ["C14_Once"]}
 TR_INV = {   # conformance layer (ENABLED-based operators stay in the model runs)
-    "C12": ["C12_Loaders", "C12_Runners", "C12_Procs"],
+    "C12": ["C12_Loaders", "C12_Runners", "C12_Procs", "C12_Early"],
     "C13": ["C13_Once", "C13_All", "C13_AfterReady", "C13_StopAtError", "C13_ErrorReported", "C09_NoRunnerAfterFailure", "C05_InitOnce"],
     "C14": ["C14_WaitsAll"],
 }
 MON_INV = {
-    "C12": ["M_WellFormed", "C12_Loaders", "C12_Runners", "C12_Procs", "M_C12_AfterComplete", "M_C12_LoadersComplete", "M_C13_AllRunners"],
+    "C12": ["M_WellFormed", "C12_Loaders", "C12_Runners", "C12_Procs", "C12_Early", "M_C12_EarlyComplete", "M_C12_AfterComplete", "M_C12_LoadersComplete", "M_C13_AllRunners"],
     "C13": ["M_WellFormed", "C13_Once", "C13_StopAtError", "C13_ErrorReported", "C09_NoRunnerAfterFailure", "C05_InitOnce",
             "M_C13_AllRunners", "M_C13_AfterReady", "M_C09_NoPanic", "C12_Runners"],
     "C14": ["M_WellFormed", "C14_WaitsAll", "M_C14_ClosedAll"],
